@@ -36,23 +36,22 @@ from .sympy_helpers import _custom_simplify_expr, _is_zero
 
 
 def get_block_diagonal_blocks(A):
+    r"""
+    Find the groups of mutually coupled rows/columns of the square matrix :python:`A`.
+
+    :return: A list with one tuple ``(idx, block)`` per group, where ``idx`` is the array of row/column indices of the group and ``block`` is the corresponding square submatrix ``A[idx, :][:, idx]``. The indices of a group need not be adjacent.
+    """
     assert A.shape[0] == A.shape[1], "matrix A should be square"
 
     A_mirrored = (A != 0) | (A.T != 0)   # symmetric coupling pattern; do not add A and A.T, as entries of opposite sign (e.g. x' = y, y' = -x) would cancel
 
     graph_components = scipy.sparse.csgraph.connected_components(A_mirrored)[1]
 
-    assert all(np.diff(graph_components) >= 0), "Matrix is not ordered"
-
     blocks = []
     for i in np.unique(graph_components):
         idx = np.where(graph_components == i)[0]
-        assert all(np.diff(idx) > 0)
-        assert len(idx) == 1 or (len(np.unique(np.diff(idx))) == 1 and np.unique(np.diff(idx))[0] == 1)
-        idx_min = np.amin(idx)
-        idx_max = np.amax(idx)
-        block = A[idx_min:idx_max + 1, idx_min:idx_max + 1]
-        blocks.append(block)
+        block = A[np.ix_(idx, idx)]
+        blocks.append((idx, block))
 
     return blocks
 
@@ -205,8 +204,12 @@ class SystemOfShapes:
 
         # optimized: be explicit about block diagonal elements; much faster!
         blocks = get_block_diagonal_blocks(np.array(A))
-        propagators = [sympy.simplify(sympy.exp(sympy.Matrix(block) * sympy.Symbol(Config().output_timestep_symbol))) for block in blocks]
-        P = sympy.Matrix(scipy.linalg.block_diag(*propagators))
+        P = sympy.zeros(*A.shape)
+        for idx, block in blocks:
+            P_block = sympy.simplify(sympy.exp(sympy.Matrix(block) * sympy.Symbol(Config().output_timestep_symbol)))
+            for k, row in enumerate(idx):
+                for l, col in enumerate(idx):
+                    P[int(row), int(col)] = P_block[k, l]
 
         # check the result
         if sympy.I in sympy.preorder_traversal(P):
